@@ -120,6 +120,14 @@ pub struct DocSpec {
     pub filler: usize,
     #[serde(default)]
     pub filler_pad: u16,
+    /// the file is written there (path relative to the run directory) and `name` - the path by
+    /// which scrut reaches the document - leads to it through the symbolic link `link`
+    #[serde(default)]
+    pub stored_at: Option<String>,
+    /// (link path, target path), both relative to the run directory; the target is a directory
+    /// or the document itself. Never points to an ancestor: no cycles
+    #[serde(default)]
+    pub link: Option<(String, String)>,
 }
 
 impl DocSpec {
@@ -135,6 +143,8 @@ impl DocSpec {
             defect: Defect::None,
             filler: 0,
             filler_pad: 0,
+            stored_at: None,
+            link: None,
         }
     }
 
@@ -575,6 +585,11 @@ fn model_doc(run: &RunSpec, doc: &DocSpec) -> Result<DocModel, Undecided> {
         Defect::NotUtf8 => Some("unreadable-document"),
         Defect::MissingShell => Some("missing-shell"),
     };
+    if doc.stored_at.is_some() && (!doc.prepend.is_empty() || !doc.append.is_empty() || doc.defect != Defect::None) {
+        // includes are resolved relative to the directory of the path as given; through a link
+        // `..` leads somewhere else: not modelled
+        return Err("front-matter includes / defect in a document reached through a symbolic link".into());
+    }
     if doc.format == Format::Cram
         && (!doc.prepend.is_empty() || !doc.append.is_empty() || doc.skip_code.is_some() || doc.total_timeout_ms.is_some())
     {
